@@ -466,8 +466,19 @@ func makeKey(si suiteInfo, m oprf.Mode, r *lib.Rng, mon string) *oprfKey {
 		x := gr.randInt(r, true)
 		skb := gr.intEnc(x)
 		sk := new(oprf.PrivateKey)
-		if err := sk.UnmarshalBinary(su, skb); err != nil {
+		// decoded from a scratch buffer that is wiped afterwards: the key must
+		// not look into the caller's bytes any more
+		scratch := lib.Clone(skb)
+		err := sk.UnmarshalBinary(su, scratch)
+		for j := range scratch {
+			scratch[j] = 0
+		}
+		if err != nil {
 			lib.Violation("C16:error:oprf.PrivateKey.UnmarshalBinary", mon, lib.D("suite", su.Identifier(), "sk", skb, "err", err))
+			return nil
+		}
+		if now, _ := sk.MarshalBinary(); !lib.Eq(now, skb) {
+			lib.Violation("C16:decoded-object-tied-to-input-buffer:oprf.PrivateKey.UnmarshalBinary", mon, lib.D("suite", su.Identifier(), "sk", skb, "after_wiping_the_buffer", now))
 			return nil
 		}
 		lib.Count("key:decoded")
@@ -625,7 +636,12 @@ func TestVerifOPRF(t *testing.T) {
 		}
 		// server built from the re-decoded key
 		sk2 := new(oprf.PrivateKey)
-		if err := sk2.UnmarshalBinary(su, skb); err != nil {
+		sk2buf := lib.Clone(skb)
+		sk2err := sk2.UnmarshalBinary(su, sk2buf)
+		for j := range sk2buf {
+			sk2buf[j] = 0xEE
+		}
+		if err := sk2err; err != nil {
 			viol("error", "PrivateKey.UnmarshalBinary", "sk", skb, "err", err)
 			return
 		}
